@@ -8,6 +8,8 @@ def punct(lm):
         "(": lm.custom("(", ["("], "PUNCT"), ")": lm.custom(")", [")"], "PUNCT"),
         ",": lm.custom(",", [","], "PUNCT"), ".": lm.custom(".", ["."], "PUNCT"),
         "=": lm.custom("=", ["="], "PUNCT"),
+        # a run of dots is ONE token for the scanner (T-SQL db..table)
+        "..": lm.custom("..", [".."], "PUNCT"),
     }
 
 
